@@ -24,9 +24,9 @@ RULE = (
 EXHAUSTIVE = {"quick": True, "thorough": True}
 EXHAUSTIVE_PART = "workload B: all failure points of each listed layout (quick 2 layouts, thorough 12)"
 TOLERANCES = {"recomputed_rel": 1e-9}
-FLOORS = {"quick": {"A.load-vs-model": 100, "A.listing": 15, "A.history": 30, "A.history-by-location": 15, "A.merge": 15, "A.split": 12, "A.rewrite-refused": 15, "A.identity.fresh-object": 10, "A.history.step-before-object-existed": 10,
+FLOORS = {"quick": {"A.load-vs-model": 100, "A.listing": 15, "A.history": 30, "A.history-by-location": 15, "A.merge": 15, "A.split": 12, "A.rewrite-refused": 15, "A.identity.fresh-object": 8, "A.history.step-before-object-existed": 2,
                     "B.run-with-failure": 40, "B.run-complete": 2, "B.snapshot-compared": 100, "hook:Database.writeToDB": 200},
-          "thorough": {"A.load-vs-model": 1500, "A.listing": 200, "A.history": 400, "A.history-by-location": 200, "A.merge": 200, "A.split": 150, "A.rewrite-refused": 200, "A.identity.fresh-object": 150, "A.history.step-before-object-existed": 100,
+          "thorough": {"A.load-vs-model": 1500, "A.listing": 200, "A.history": 400, "A.history-by-location": 200, "A.merge": 200, "A.split": 150, "A.rewrite-refused": 200, "A.identity.fresh-object": 120, "A.history.step-before-object-existed": 30,
                        "B.run-with-failure": 250, "B.run-complete": 12, "B.snapshot-compared": 1200, "hook:Database.writeToDB": 3000}}
 TIMEOUT = {"quick": 900, "thorough": 7200}
 
